@@ -420,10 +420,16 @@ class RaftNode(Entity):
             )
             return [resp]
 
-        if term >= self._current_term:
+        if term > self._current_term:
             self._step_down(term)
+        elif self._state != RaftState.FOLLOWER:
+            # Same term: a candidate (or stale leader) yields to the leader,
+            # but keeps its vote for this term.
+            self._state = RaftState.FOLLOWER
+            if self._heartbeat_event:
+                self._heartbeat_event.cancel()
+                self._heartbeat_event = None
         self._leader = leader_id
-        self._current_term = term
 
         # Reset election timeout
         result_events: list[Event] = [self._schedule_election_timeout()]
